@@ -115,7 +115,7 @@ static int enabled_ops(op_t *o, int max) {
                 if (mflag(s, M_MOD_DENY_CTX) && a != A_CTXCALL && a != A_QUIT && a != A_ERRNO) continue;
                 switch (a) {
                 case A_STOP: case A_DEREG: case A_PAUSE: for (int t = 0; t < NMO; t++) { if (a == A_STOP && t == s && cb == CB_STOP) continue; EMIT(O_ARM, s, cb * 32 + a, t); } break;
-                case A_START: case A_RESUME: for (int t = 0; t < NMO; t++) if (t != s) EMIT(O_ARM, s, cb * 32 + a, t); break;
+                case A_START: case A_RESUME: for (int t = 0; t < NMO; t++) if (t != s || (a == A_START && (cb == CB_EVAL || cb == CB_STOP))) EMIT(O_ARM, s, cb * 32 + a, t); break;      /* a module starting itself: from its evaluation callback, or again from its stop callback */
                 case A_TELL: case A_PILL: for (int t = 0; t < NMO; t++) EMIT(O_ARM, s, cb * 32 + a, t); break;
                 case A_PUB: for (int tp = 0; tp < NTOPIC; tp++) if (P.topics & (1u << tp)) EMIT(O_ARM, s, cb * 32 + a, tp); break;
                 case A_QUIT: EMIT(O_ARM, s, cb * 32 + a, 1); break;
